@@ -25,7 +25,11 @@ func verifTallyState() (*Committee, *quorumState, [4]int) {
 	q := newQuorumState(pt)
 	var votes [4]int
 	for i := 0; i < 4; i++ {
-		votes[i] = sym.Choice("vote", 3) // 0 none, 1 A, 2 B
+		nv := 3 // 0 none, 1 A, 2 B
+		if sym.Tier() == 0 && i >= 2 {
+			nv = 2 // quick tier: the last two members vote for A or not at all (B is symmetric)
+		}
+		votes[i] = sym.Choice("vote", nv)
 		if votes[i] != 0 {
 			q.Receive(pt.Entries[i].ID, VerifX(1+votes[i]), []byte{byte(i), 1})
 		}
